@@ -1049,9 +1049,23 @@ def _classify(info, bad):
 
 
 def work(item):
+  if item[0] == "infgroup":
+    # several programs with their inferred stubs, one after the other in this (freshly forked) worker
+    stats, cands, merged_before = {}, {}, []
+    for src, spec in item[1]:
+      st, cd = _work_one(("inf", src, spec, 0, None), merged_before)
+      for k, v in st.items():
+        stats[k] = stats.get(k, 0) + v
+      for sig, c in cd.items():
+        if sig not in cands or c < cands[sig]:
+          cands[sig] = c
+    return stats, cands
+  return _work_one(item, [])
+
+
+def _work_one(item, merged_before):
   mode, src, spec, part, types = item
   stats, cands = {}, {}
-  merged_before = []
 
   def bump(k, n=1):
     stats[k] = stats.get(k, 0) + n
@@ -1077,7 +1091,7 @@ def work(item):
       c = (0 if origin == "gen" else 1, len(src) + len(pyi), src, pyi, v[2], list(spec), list(merged_before))
       if v.sig not in cands or c < cands[v.sig]:
         cands[v.sig] = c
-    merged_before.append(pyi)
+    merged_before.append((src, pyi))
 
   if mode == "inf":
     try:
@@ -1097,35 +1111,37 @@ def work(item):
 
 def _sigs_after(arg):
   """Signatures violated by the last merge of a sequence of stubs into src (run in a forked child)."""
-  src, pyis = arg
+  pairs = arg
   out = []
-  for k, p in enumerate(pyis):
+  for k, (src, p) in enumerate(pairs):
     bad, _, merged = check_pair(src, p)
-    if k == len(pyis) - 1:
+    if k == len(pairs) - 1:
       out = [(v.sig, v[2]) for v in bad], merged
   return out
 
 
 def _min_work(item):
   sig, origin, src, pyi, spec, before = item
+  before = [tuple(b) for b in before]
+  alone, _ = vrun.isolated(_sigs_after, [(src, pyi)])
+  if sig not in [x for x, _ in alone]:
+    # the pair is fine on its own: the violation depends on what the process merged earlier
+    hist = None
+    for b in before:
+      got, merged = vrun.isolated(_sigs_after, [b, (src, pyi)])
+      if sig in [x for x, _ in got]:
+        hist = [b]
+        break
+    if hist is None:
+      got, merged = vrun.isolated(_sigs_after, list(before) + [(src, pyi)])
+      if sig not in [x for x, _ in got]:
+        raise RuntimeError("violation %s of %r / %r reproduces neither alone nor after its recorded history" % (sig, src, pyi))
+      hist = list(before)
+    msg = next(m for x, m in got if x == sig)
+    return ({"sig": sig, "origin": "after-earlier-merges-in-the-same-process", "src": src, "pyi": pyi,
+             "history": [list(h) for h in hist]},
+            "after merging %d other (program, stub) pair(s) in the same process: %s" % (len(hist), msg), merged)
   if origin == 0:
-    alone, _ = vrun.isolated(_sigs_after, (src, [pyi]))
-    if sig not in [x for x, _ in alone]:
-      # the pair is fine on its own: the violation depends on what the process merged earlier
-      hist = None
-      for p in before:
-        got, merged = vrun.isolated(_sigs_after, (src, [p, pyi]))
-        if sig in [x for x, _ in got]:
-          hist = [p]
-          break
-      if hist is None:
-        got, merged = vrun.isolated(_sigs_after, (src, list(before) + [pyi]))
-        if sig not in [x for x, _ in got]:
-          raise RuntimeError("violation %s of %r / %r reproduces neither alone nor after its recorded history" % (sig, src, pyi))
-        hist = list(before)
-      msg = next(m for x, m in got if x == sig)
-      return ({"sig": sig, "origin": "generated-stub-after-earlier-merges", "src": src, "pyi": pyi, "history": hist},
-              "after merging %d other stub(s) in the same process: %s" % (len(hist), msg), merged)
     s, p = minimise(src, pyi, sig)
     bad, _, out = check_pair(s, p)
     msg = next(v[2] for v in bad if v.sig == sig)
@@ -1181,8 +1197,9 @@ def run(rep, tier, seed):
   from pytype.tools.merge_pyi import merge_pyi as _preload  # pylint: disable=unused-import
   import libcst.codemod.visitors  # pylint: disable=unused-import
   gen_items = [it for it in items if it[0] == "gen"]
-  inf_items = [it for it in items if it[0] != "gen"]
-  for its, mt in ((inf_items, None), (gen_items, 1)):
+  inf = [(it[1], it[2]) for it in items if it[0] != "gen"]
+  inf_items = [("infgroup", inf[k:k + 24]) for k in range(0, len(inf), 24)]
+  for its, mt in ((inf_items, 1), (gen_items, 1)):
     for item, (stats, cands) in vrun.pmap(work, its, seed=seed, chunksize=1, maxtasks=mt):
       for k, v in stats.items():
         tot[k] = tot.get(k, 0) + v
@@ -1244,7 +1261,7 @@ def replay(case):
   boot.load()
   src = case["src"]
   pyi = case["pyi"] if "pyi" in case else _infer(src, False)
-  for p in case.get("history") or ():
-    check_pair(src, p)     # the earlier merges of the same process
+  for hs, hp in case.get("history") or ():
+    check_pair(hs, hp)     # the earlier merges of the same process
   bad, _, _ = check_pair(src, pyi)
   return [{"key": _key(case), "summary": v[2]} for v in bad if v.sig == case["sig"]][:1]
